@@ -119,13 +119,15 @@ class DocGen:
         if name == "order":
             return rnd.randint(1, 5)
         if name == "meta":
-            return rnd.choice([None, 1, 2, {"k": [1, "v"]}])
+            return rnd.choice([None, 1, 2, {"k": [1, "v"]}, 0, ""])
         if name in ("href", "src"):
             return rnd.choice(["x", "y.png", "http://a/b?c=1&d=2"])
         if name in ("title", "alt"):
             return rnd.choice([None, "t", 'q"uo<te'])
         if getattr(self, "nested_attrs", False) and rnd.random() < 0.25:
             return rnd.choice([[1, {"z": 2}], {"y": [1, "w"]}, [], {}])
+        if rnd.random() < 0.12:
+            return rnd.choice([0, ""])  # falsy but not None: legitimate values (no booleans: 0 == False in Python)
         return rnd.choice(ATTR_VALUES)
 
     def attrs(self, decl, owner, p_override=0.3):
